@@ -170,7 +170,7 @@ def correspond(ctx, proof_ok=True):
         terms.append(case_term(c, r))
         owners.append(i)
         npoints += len(r['xe'])
-    cc = C.CoqCases(ctx.work, HEADER, 'run_cases', shard=max(1, len(terms) // 32 + 1))
+    cc = C.CoqCases(ctx.work, HEADER, 'run_cases', shard=1)
     verdicts = cc.run(terms) if terms else []
     ctx.coverage.update({
         'evaluations': npoints,
